@@ -78,6 +78,9 @@ NAMED = {
                     ("NS", "newtype", Vec(Int("u8"))), ("NE", "newtype", Ref("E1")), ("T", "tuple", [Int("u8"), Int("u8")]),
                     ("T0", "tuple", []), ("S", "struct", [("x", BOOL), ("y", Int("u32"))]), ("S0", "struct", [])]),
     "R": ("struct", [("m", Map(STR, Ref("E1"))), ("e", Ref("E2")), ("v", Vec(Ref("P")))]),
+    # newtype variants around the shapes that serialize as vectors or have no content, and a map with sequence keys
+    "E3": ("enum", [("NT", "newtype", Tup(Int("u8"), Int("u8"))), ("NA", "newtype", Arr(Int("u8"), 3)), ("NTS", "newtype", Ref("TS")),
+                    ("NU", "newtype", Ref("Unit")), ("NM", "newtype", Map(STR, Int("u8"))), ("NP", "newtype", Ref("P"))]),
     "Tree": ("enum", [("Leaf", "newtype", Int("i8")), ("Node", "tuple", [Boxed(Ref("Tree")), Boxed(Ref("Tree"))])]),
 }
 
@@ -94,6 +97,9 @@ FAMILY = (
     + [("BTreeMap<String, u32>", Map(STR, Int("u32"))), ("BTreeMap<i64, bool>", Map(Int("i64"), BOOL)),
        ("BTreeMap<char, Option<u8>>", Map(CHAR, Opt(Int("u8")))), ("BTreeMap<String, E2>", Map(STR, Ref("E2")))]
     + [(n, Ref(n)) for n in ["P", "Q", "Empty", "R", "E1", "E2", "Tree"]]
+    # appended later (indices above are referred to by the harness)
+    + [("E3", Ref("E3")), ("BTreeMap<(u8, u8), u8>", Map(Tup(Int("u8"), Int("u8")), Int("u8"))),
+       ("Vec<(String, u32)>", Vec(Tup(STR, Int("u32"))))]
 )
 
 
